@@ -16,6 +16,12 @@ class Rec:
     self.gate = {}        # name -> bool gates handlers may wait on
 
 
+def key_of(chart):
+  """Record key of an object: its name unless the check gave it an explicit key (two objects
+  may share a name)."""
+  return getattr(chart, "_vf_key", None) or chart.name
+
+
 def make_ao_class(rec):
   """An ActiveObject subclass that stamps posts and RTC steps."""
   import miros.activeobject as ao
@@ -24,18 +30,18 @@ def make_ao_class(rec):
   class RecAO(chartgen.bounded(ao.ActiveObject)):
     def next_rtc(self):
       s = sched()
-      rec.rtc.append(("enter", s.steps, s.current.tid, self.name))
+      rec.rtc.append(("enter", s.steps, s.current.tid, key_of(self)))
       try:
         return super().next_rtc()
       finally:
-        rec.rtc.append(("leave", s.steps, s.current.tid, self.name))
+        rec.rtc.append(("leave", s.steps, s.current.tid, key_of(self)))
 
     def _stamp(self, kind, e, period, fn):
       s = sched()
       if period is not None:
         return fn()
       p = {"kind": kind, "id": e.payload, "sig": e.signal_name, "tid": s.current.tid,
-           "thread": s.current.name, "inv": s.steps, "now": s.now, "ao": self.name, "ret": None}
+           "thread": s.current.name, "inv": s.steps, "now": s.now, "ao": key_of(self), "ret": None}
       rec.posts.append(p)
       try:
         return fn()
@@ -73,7 +79,7 @@ def flat_chart(rec, decorate=True, on_dispatch=None, sigs=("VA", "VB", "VC")):
     elif e.signal in nums:
       s = sched()
       rec.dispatch.append({"id": e.payload, "sig": nums[e.signal], "step": s.steps, "tid": s.current.tid,
-                           "now": s.now, "ao": chart.name})
+                           "now": s.now, "ao": key_of(chart)})
       if on_dispatch is not None:
         on_dispatch(chart, e)
       status = return_status.HANDLED
